@@ -33,6 +33,168 @@ theorem c02_code_facts :
     ∧ G1.r = 21888242871839275222246405745257275088548364400416034343698204186575808495617 := by
   decide
 
+/-- **the code the model transcribes, statement by statement** (regenerated from `sign/tbls/tbls.go`,
+`sign/bls/bls.go`, `share/poly.go` on every run, go/printer text with nesting depth): the index prefix
+(`binary.Read` of a `uint16`, big-endian; `Value` = `[2:]`), `Sign`, `Verify`, `sliceUniqMap`, the whole loop
+of `Recover` (threshold guard of 3cdfff8, skip on index error, `dup || i >= n`, skip on failed verification,
+`return nil, err` on the second decode, `seen[i]`, `len(pubShares) >= t` / `break`), `bls.Sign` / `bls.Verify`
+/ `hashToPoint`, and what `Recover` calls in `share/poly.go`. ANY edit breaks this obligation. -/
+theorem c02_code_shape :
+    Gen.TblsShape.sigShareIndex = [
+      "0| func (s SigShare) Index() (int, error)",
+      "1| var index uint16",
+      "1| buf := bytes.NewReader(s)",
+      "1| err := binary.Read(buf, binary.BigEndian, &index)",
+      "1| if err != nil",
+      "2| return -1, err",
+      "1| return int(index), nil"
+    ] ∧
+    Gen.TblsShape.sigShareValue = [
+      "0| func (s *SigShare) Value() []byte",
+      "1| return []byte(*s)[2:]"
+    ] ∧
+    Gen.TblsShape.tblsSign = [
+      "0| func Sign(suite suites.Suite, private *share.PriShare, msg []byte) ([]byte, error)",
+      "1| buf := new(bytes.Buffer)",
+      "1| if err := binary.Write(buf, binary.BigEndian, uint16(private.I)); err != nil",
+      "2| return nil, err",
+      "1| s, err := bls.Sign(suite, private.V, msg)",
+      "1| if err != nil",
+      "2| return nil, err",
+      "1| if err := binary.Write(buf, binary.BigEndian, s); err != nil",
+      "2| return nil, err",
+      "1| return buf.Bytes(), nil"
+    ] ∧
+    Gen.TblsShape.tblsVerify = [
+      "0| func Verify(suite suites.Suite, public *share.PubPoly, msg, sig []byte) error",
+      "1| s := SigShare(sig)",
+      "1| i, err := s.Index()",
+      "1| if err != nil",
+      "2| return err",
+      "1| return bls.Verify(suite, public.Eval(i).V, msg, s.Value())"
+    ] ∧
+    Gen.TblsShape.sliceUniqMap = [
+      "0| func sliceUniqMap(s [][]byte) [][]byte",
+      "1| seen := make(map[string]struct{}, len(s))",
+      "1| j := 0",
+      "1| for _, v := range s",
+      "2| if _, ok := seen[string(v)]; ok",
+      "3| continue",
+      "2| seen[string(v)] = struct{}{}",
+      "2| s[j] = v",
+      "2| j++",
+      "1| return s[:j]"
+    ] ∧
+    Gen.TblsShape.tblsRecover = [
+      "0| func Recover(suite suites.Suite, public *share.PubPoly, msg []byte, sigs [][]byte, t, n int) ([]byte, error)",
+      "1| if t < public.Threshold()",
+      "2| return nil, errors.New(\"tbls: threshold smaller than the threshold of the public polynomial\")",
+      "1| pubShares := make([]*share.PubShare, 0)",
+      "1| sigs = sliceUniqMap(sigs)",
+      "1| seen := make(map[int]struct{})",
+      "1| for _, sig := range sigs",
+      "2| s := SigShare(sig)",
+      "2| i, err := s.Index()",
+      "2| if err != nil",
+      "3| continue",
+      "2| if _, dup := seen[i]; dup || i >= n",
+      "3| continue",
+      "2| if err = bls.Verify(suite, public.Eval(i).V, msg, s.Value()); err != nil",
+      "3| continue",
+      "2| point := suite.G1().Point()",
+      "2| if err := point.UnmarshalBinary(s.Value()); err != nil",
+      "3| return nil, err",
+      "2| seen[i] = struct{}{}",
+      "2| pubShares = append(pubShares, &share.PubShare{I: i, V: point})",
+      "2| if len(pubShares) >= t",
+      "3| break",
+      "1| commit, err := share.RecoverCommit(suite.G1(), pubShares, t, n)",
+      "1| if err != nil",
+      "2| return nil, err",
+      "1| sig, err := commit.MarshalBinary()",
+      "1| if err != nil",
+      "2| return nil, err",
+      "1| return sig, nil"
+    ] ∧
+    Gen.TblsShape.blsSign = [
+      "0| func Sign(suite suites.Suite, x kyber.Scalar, msg []byte) ([]byte, error)",
+      "1| HM := hashToPoint(suite, msg)",
+      "1| xHM := HM.Mul(x, HM)",
+      "1| s, err := xHM.MarshalBinary()",
+      "1| if err != nil",
+      "2| return nil, err",
+      "1| return s, nil"
+    ] ∧
+    Gen.TblsShape.blsVerify = [
+      "0| func Verify(suite suites.Suite, X kyber.Point, msg, sig []byte) error",
+      "1| HM := hashToPoint(suite, msg)",
+      "1| s := suite.G1().Point()",
+      "1| if err := s.UnmarshalBinary(sig); err != nil",
+      "2| return err",
+      "1| s.Neg(s)",
+      "1| if !suite.PairingCheck([]kyber.Point{s, HM}, []kyber.Point{suite.G2().Point().Base(), X})",
+      "2| return errors.New(\"bls: invalid signature\")",
+      "1| return nil"
+    ] ∧
+    Gen.TblsShape.hashToPoint = [
+      "0| func hashToPoint(suite suites.Suite, msg []byte) kyber.Point",
+      "1| hash := sha3.NewLegacyKeccak256()",
+      "1| var buf []byte",
+      "1| hash.Write(msg)",
+      "1| buf = hash.Sum(buf)",
+      "1| x := suite.G1().Scalar().SetBytes(buf)",
+      "1| point := suite.G1().Point().Mul(x, nil)",
+      "1| return point"
+    ] ∧
+    Gen.TblsShape.recoverCommit = [
+      "0| func RecoverCommit(g kyber.Group, shares []*PubShare, t, n int) (kyber.Point, error)",
+      "1| x := make(map[int]kyber.Scalar)",
+      "1| seen := make(map[int]struct{})",
+      "1| for i, s := range shares",
+      "2| if s == nil || s.V == nil || s.I < 0 || n <= s.I",
+      "3| continue",
+      "2| if _, dup := seen[s.I]; dup",
+      "3| continue",
+      "2| seen[s.I] = struct{}{}",
+      "2| x[i] = g.Scalar().SetInt64(1 + int64(s.I))",
+      "1| if len(x) < t",
+      "2| return nil, errors.New(\"share: not enough good public shares to reconstruct secret commitment\")",
+      "1| num := g.Scalar()",
+      "1| den := g.Scalar()",
+      "1| tmp := g.Scalar()",
+      "1| Acc := g.Point().Null()",
+      "1| Tmp := g.Point()",
+      "1| for i, xi := range x",
+      "2| num.One()",
+      "2| den.One()",
+      "2| for j, xj := range x",
+      "3| if i == j",
+      "4| continue",
+      "3| num.Mul(num, xj)",
+      "3| den.Mul(den, tmp.Sub(xj, xi))",
+      "2| Tmp.Mul(num.Div(num, den), shares[i].V)",
+      "2| Acc.Add(Acc, Tmp)",
+      "1| return Acc, nil"
+    ] ∧
+    Gen.TblsShape.pubEval = [
+      "0| func (p *PubPoly) Eval(i int) *PubShare",
+      "1| xi := p.g.Scalar().SetInt64(1 + int64(i))",
+      "1| v := p.g.Point().Null()",
+      "1| for j := p.Threshold() - 1; j >= 0; j--",
+      "2| v.Mul(xi, v)",
+      "2| v.Add(v, p.commits[j])",
+      "1| return &PubShare{i, v}"
+    ] ∧
+    Gen.TblsShape.pubThreshold = [
+      "0| func (p *PubPoly) Threshold() int",
+      "1| return len(p.commits)"
+    ] ∧
+    Gen.TblsShape.pubCommit = [
+      "0| func (p *PubPoly) Commit() kyber.Point",
+      "1| return p.commits[0]"
+    ] :=
+  ⟨rfl, rfl, rfl, rfl, rfl, rfl, rfl, rfl, rfl, rfl, rfl, rfl, rfl⟩
+
 /-- **1. Lagrange at zero in the signature group** (the algebra behind recovery): for distinct
 nodes `L` and a polynomial of degree `< |L|`,
 `Σₐ ((Π_{b≠a} b) / Π_{b≠a} (b − a)) • (p(a) • H) = p(0) • H`. -/
